@@ -8,7 +8,10 @@
 From Coq Require Import List Arith Bool.
 Import ListNotations.
 
-Inductive op := Request | RequestFail | Close.     (* RequestFail: the attempt fails on the wire (retries=False): the connection is closed, its slot returned *)
+Inductive op := Request | RequestFail | Close | RequestRetry.
+(* RequestFail: the attempt fails on the wire (retries=False): the connection is closed, its slot returned.
+   RequestRetry: a streamed request whose first attempt is answered by a status the Retry policy retries: the response is
+   drained, which gives the connection back (_put_conn), and urlopen starts over with _get_conn *)
 
 (* where a thread stands: about to execute ... *)
 Inductive pc :=
@@ -53,6 +56,12 @@ Definition finish (th : thread) (o : nat) : thread :=
   | rest => mkThread rest PStart false (t_outs th ++ [o])
   end.
 Definition at_pc (th : thread) (p : pc) : thread := mkThread (t_ops th) p (t_fail th) (t_outs th).
+(* an attempt is over and its connection dealt with: the operation is over, or (RequestRetry) the second attempt begins *)
+Definition complete (th : thread) : thread :=
+  match t_ops th with
+  | RequestRetry :: rest => mkThread (Request :: rest) PGetCheck false (t_outs th)
+  | _ => finish th (if t_fail th then 5 else 0)
+  end.
 
 (* can thread t take a step? (only a get on an empty queue of a blocking pool cannot) *)
 Definition runnable (block : bool) (st : state) (t : nat) : bool :=
@@ -72,6 +81,7 @@ Definition step (warn_safe : bool) (maxsize : nat) (block : bool) (st : state) (
       match t_ops th with
       | Request :: _ => upd (mkThread (t_ops th) PGetCheck false (t_outs th))
       | RequestFail :: _ => upd (mkThread (t_ops th) PGetCheck true (t_outs th))
+      | RequestRetry :: _ => upd (mkThread (t_ops th) PGetCheck false (t_outs th))
       | Close :: _ => upd (at_pc th PCloseCheck)
       | [] => upd (at_pc th PIdle)
       end
@@ -89,16 +99,16 @@ Definition step (warn_safe : bool) (maxsize : nat) (block : bool) (st : state) (
       if t_fail th then upd_open (at_pc th (PPutCheck None)) (remove_nat c (s_open st))
       else upd (at_pc th (PPutCheck (Some c)))
   | PPutCheck oc =>
-      if s_closed st then upd_open (finish th (if t_fail th then 5 else 0)) (close_opt (s_open st) oc)
+      if s_closed st then upd_open (complete th) (close_opt (s_open st) oc)
       else upd (at_pc th (PPutRead oc))
   | PPutRead oc =>
-      if s_closed st then upd_open (finish th (if t_fail th then 5 else 0)) (close_opt (s_open st) oc)
+      if s_closed st then upd_open (complete th) (close_opt (s_open st) oc)
       else upd (at_pc th (PPut oc))
   | PPut oc =>
       if Nat.ltb (length (s_q st)) maxsize
-      then mkState (oc :: s_q st) (s_closed st) (set_thread st t (finish th (if t_fail th then 5 else 0))) (s_open st) (s_next st) (s_max_open st)
+      then mkState (oc :: s_q st) (s_closed st) (set_thread st t (complete th)) (s_open st) (s_next st) (s_max_open st)
       else upd_open (if block then finish th 2 else at_pc th PWarn) (close_opt (s_open st) oc)
-  | PWarn => upd (if s_closed st && negb warn_safe then finish th 3 else finish th (if t_fail th then 5 else 0))
+  | PWarn => upd (if s_closed st && negb warn_safe then finish th 3 else complete th)
   | PCloseCheck => upd (if s_closed st then finish th 4 else at_pc th PCloseSwap)
   | PCloseSwap => mkState (s_q st) true (set_thread st t (at_pc th PDrain)) (s_open st) (s_next st) (s_max_open st)
   | PDrain =>
